@@ -36,7 +36,14 @@ RULE = ("addresses x ports x recovery mechanism: IPv4/IPv6 destinations = all-ze
         "set for every IPv6 datagram because struct sockaddr_in6 is 28 bytes and recv_udp offers CMSG_SPACE(24); flow labels and "
         "scope ids in the kernel's sockaddr_in6); on every run the fake is compared with the running kernel (loopback sockets, "
         "IP(V6)_RECVORIGDSTADDR, control buffers of 0..128 bytes, one and several messages) and the real recv_udp is run on real "
-        "loopback datagrams of both families")
+        "loopback datagrams of both families; PLUS pf sessions (run_pf_sessions, oracle on the real code only): ONE real helper process "
+        "(the real firewall.main loop, HOST handling, rewrite_etc_hosts on a scratch file, pf firewall_command, query_nat) on ONE "
+        "socketpair as its stdin and stdout, driven by the real FirewallClient.start / sethostip, pf get_tcp_dstip and "
+        "client.onaccept_tcp through histories of 6-14 items in random order - diverted flows (both families, destinations and "
+        "ports of the lists above, no state in the kernel, the proxy's own socket), HOST lines (names reported again with the same "
+        "and with another address), a blank or unknown line as the last line: after STARTED nothing but QUERY_PF_NAT_SUCCESS/FAILURE "
+        "lines appears on the helper's standard output, exactly one per query, in order, each answering its query, and every "
+        "flow's CONNECT names the destination THAT flow dialled")
 TRUSTED_BASE = [
     "modelled, not verified: kernel layouts struct sockaddr_in / sockaddr_in6 and the IP_ORIGDSTADDR / IPV6_ORIGDSTADDR control messages "
     "(Model/Addr.v sockaddr_in, sockaddr_in6) - compared with a real Linux kernel in a namespace in the thorough tier",
@@ -50,6 +57,12 @@ TRUSTED_BASE = [
     "the server's outgoing socket is a recording object whose connect() validates the address with a numeric getaddrinfo restricted to "
     "the socket's family (what CPython's connect does before the system call) and then reports EINPROGRESS",
     "pf: DIOCNATLOOK is replaced by a fake ioctl on the FreeBSD structure layout; BSD inet_ntop differs from glibc for ::0.0.x.y (not validated)",
+    "pf sessions: the helper is a child process of the check (sys.executable -c) whose stdin and stdout are one socketpair as FirewallClient "
+    "arranges it; in the child setup_daemon is replaced by `lambda: (sys.stdin.buffer, sys.stdout.buffer)` (what the real one returns, without "
+    "the root check and signal set-up), Method.setup_firewall / restore_firewall / is_supported and flush_systemd_dns_cache are skipped, "
+    "HOSTSFILE is a scratch file, DIOCNATLOOK is answered from a table source -> original destination; the client side is a FirewallClient "
+    "made with object.__new__ (no sudo/Popen logic) whose pfile is the other end of the socketpair behind a recorder; accepted sockets and the "
+    "mux are recording objects; client.islocal answers True for 127.0.0.1 / ::1 only",
 ]
 ASSUMPTIONS = [
     "getsockname() of an accepted socket names a local address (so the pf failure fallback trips the self-address guard)",
@@ -594,6 +607,365 @@ def batch(ctx, what, lines, impls, descs, nontrivial=None, sample_every=0, oracl
             holds = oracle(i) if oracle else None
             ctx.disagree(what, ln[:600], im[:600], o[:600], holds)
     return outs
+
+
+# --------------------------------------------------------------------------
+# pf sessions: ONE real helper process (the real firewall.main loop) on ONE control channel, serving everything that loop
+# serves - HOST lines (names reported again, with the same or another address), QUERY_PF_NAT lines, and (as the last line
+# of a session) a blank or an unknown line - while the real client side (FirewallClient.start / sethostip,
+# pf.Method.get_tcp_dstip, client.onaccept_tcp) reads the replies from that same channel.
+#
+# Oracle (from the property text: "the destination the client sends to the server equals the address and port the
+# application originally addressed ... pf state query through the helper ... replies of the pf query dialogue
+# success/failure"): the helper's standard output IS the reply channel of the dialogue, so after STARTED nothing but
+# QUERY_PF_NAT_SUCCESS / QUERY_PF_NAT_FAILURE lines may ever appear on it, exactly one per query and in the order of the
+# queries, each answering ITS query; and for every flow of the history the CONNECT request on the mux names the
+# destination that flow dialled (no state in the kernel / the proxy's own listening socket: dropped, nothing sent).
+
+PF_HELPER_SCRIPT = r'''
+import ctypes, errno, json, os, socket, sys
+sys.path.insert(0, os.environ["C05_TREE"])
+import sshuttle.firewall as fw
+import sshuttle.helpers as helpers
+import sshuttle.methods.pf as pfmod
+table = dict(((f, s, p), (d, q)) for f, s, p, d, q in json.loads(os.environ["C05_NAT_TABLE"]))
+# boundary: no root check / signal set-up (C04 runs the real setup_daemon), the same stream objects it returns;
+# rule loading and the resolver-cache flush are skipped; /etc/hosts is a scratch file; DIOCNATLOOK is answered from a
+# table "source address, source port -> destination before translation" as the kernel's state table would
+fw.setup_daemon = lambda: (sys.stdin.buffer, sys.stdout.buffer)
+fw.flush_systemd_dns_cache = lambda: None
+fw.HOSTSFILE = os.environ["C05_HOSTS"]
+pfmod.Method.is_supported = lambda self: True
+pfmod.Method.setup_firewall = lambda self, *a: None
+pfmod.Method.restore_firewall = lambda self, *a: None
+pfmod.pf_get_dev = lambda: 7
+
+
+def natlook(fd, request, buf):
+    pnl = pfmod.pf.pfioc_natlook.from_address(ctypes.addressof(buf))
+    n = 4 if pnl.af == socket.AF_INET else 16
+    src = bytes(bytearray(pnl.saddr.addr8[:n])).hex()
+    key = (pnl.af, src, socket.ntohs(pnl.sxport))
+    if request != pfmod.pf.DIOCNATLOOK or key not in table:
+        raise IOError(errno.ENOENT, os.strerror(errno.ENOENT))
+    dst, dport = table[key]
+    raw = bytes.fromhex(dst)
+    ctypes.memmove(ctypes.addressof(pnl.rdaddr), raw, len(raw))
+    pnl.rdxport = socket.htons(dport)
+    return 0
+
+
+pfmod.ioctl = natlook
+try:
+    fw.main("pf", False)
+except helpers.Fatal as e:
+    sys.stderr.write("helper ended: Fatal: %s\n" % (e,))
+    sys.stdout.flush()
+    sys.exit(3)
+'''
+
+PF_OK = (b"QUERY_PF_NAT_SUCCESS ", b"QUERY_PF_NAT_FAILURE ")
+
+
+class RecPFile:
+    """the client's end of the control channel (FirewallClient.pfile): passes everything through, keeps what was read"""
+
+    def __init__(self, f):
+        self.f = f
+        self.read = []
+        self.timed_out = False
+
+    def write(self, b):
+        return self.f.write(b)
+
+    def flush(self):
+        return self.f.flush()
+
+    def readline(self, *a):
+        try:
+            ln = self.f.readline(*a)
+        except socket.timeout:
+            self.timed_out = True
+            ln = b""
+        self.read.append(bytes(ln))
+        return ln
+
+    def close(self):
+        self.f.close()
+
+
+def pf_flow_text(it):
+    return "%s port %d" % (it[4], it[5]) if it[4] is not None else "(no state in the kernel)"
+
+
+def run_pf_session(world, history, proxy_port=12300, timeout=20):
+    """history: list of ["F", family, source ip, source port, dialled ip or None (no state in the kernel), dialled port]
+    | ["H", name, ipv4 text] | ["J", hex of a raw line written on the channel (session ends there)].
+    Returns {"failures": [(kind, text)...], "trace": [...]}; failures empty = the property holds on this history."""
+    import shutil
+    import tempfile
+    client, ssnet = world.client, world.ssnet
+    fams = {AF_INET: socket.AF_INET, AF_INET6: socket.AF_INET6}
+    lo = {AF_INET: "127.0.0.1", AF_INET6: "::1"}
+    table = []
+    for it in history:
+        if it[0] == "F" and it[4] is not None:
+            table.append([int(fams[it[1]]), socket.inet_pton(fams[it[1]], it[2]).hex(), it[3],
+                          socket.inet_pton(fams[it[1]], it[4]).hex(), it[5]])
+    scratch = tempfile.mkdtemp(prefix="c05pf-")
+    failures, trace = [], []
+    proc = s2 = None
+    old_islocal = client.islocal
+    client.islocal = lambda ip, family: ip in ("127.0.0.1", "::1")
+    try:
+        hosts = os.path.join(scratch, "hosts")
+        with open(hosts, "w") as f:
+            f.write("127.0.0.1 localhost\n")
+        env = dict(os.environ)
+        env["C05_TREE"] = os.path.dirname(os.path.dirname(os.path.abspath(world.firewall.__file__)))
+        env["C05_HOSTS"] = hosts
+        env["C05_NAT_TABLE"] = json.dumps(table)
+        # the plumbing of FirewallClient.__init__: one bidirectional socket is the helper's stdin AND stdout
+        s1, s2 = socket.socketpair()
+        errlog = open(os.path.join(scratch, "stderr"), "w+")
+        proc = subprocess.Popen([sys.executable, "-c", PF_HELPER_SCRIPT], stdin=s1, stdout=s1, stderr=errlog, env=env)
+        s1.close()
+        s2.settimeout(timeout)
+        fc = object.__new__(client.FirewallClient)
+        fc.auto_nets = []
+        fc.p = proc
+        fc.argv = ["<pf helper of the C05 check>"]
+        fc.pfile = RecPFile(s2.makefile("rwb"))
+        line = fc.pfile.readline()
+        if line != b"READY pf\n":
+            errlog.seek(0)
+            raise RuntimeError("pf helper did not start: %r / %s" % (line, errlog.read()[-600:]))
+        method = world.pf.Method("pf")
+        method.set_firewall(fc)
+        fc.method = method
+        fc.setup([(socket.AF_INET, "0.0.0.0", 0, 0, 0), (socket.AF_INET6, "::", 0, 0, 0)], [], [],
+                 proxy_port, proxy_port, 0, 0, False, None, None, "0x01")
+        fc.start()                                  # ROUTES / NSLIST / PORTS / GO ... STARTED
+        flows = []                                  # (item, reply line read, outcome)
+        for n, it in enumerate(history):
+            if it[0] == "H":
+                fc.sethostip(it[1].encode("ascii"), it[2].encode("ascii"))
+                trace.append("HOST %s,%s" % (it[1], it[2]))
+            elif it[0] == "J":
+                fc.pfile.write(unhx(it[1]))
+                fc.pfile.flush()
+                trace.append("line %r" % unhx(it[1]))
+                break
+            else:
+                fam = it[1]
+                tail = (0, 0) if fam == AF_INET6 else ()
+                peer = (it[2], it[3]) + tail
+                sock = FakeSock(fam, None, (lo[fam], proxy_port) + tail, peer)
+                mux = FakeMux(1 + n)
+                before = len(fc.pfile.read)
+                try:
+                    client.onaccept_tcp(FakeListener(fam, sock, src=peer), method, mux, [])
+                    raised = None
+                except Exception as e:
+                    raised = "%s: %s" % (type(e).__name__, e)
+                got = fc.pfile.read[before:]
+                sent = [d.decode("latin-1") for (c, cmd, d) in mux.sent if cmd == ssnet.CMD_TCP_CONNECT]
+                other = [cmd for (c, cmd, d) in mux.sent if cmd != ssnet.CMD_TCP_CONNECT]
+                flows.append((n, it, got, sent, other, sock.closed, raised))
+                trace.append("flow from %s port %d dialled %s: read %r, CONNECT %r%s%s"
+                             % (it[2], it[3], pf_flow_text(it), got, sent, ", socket closed" if sock.closed else "",
+                                ", raised " + raised if raised else ""))
+                if fc.pfile.timed_out:
+                    failures.append(("no-reply", "the pf helper did not answer a QUERY_PF_NAT within %d s" % timeout))
+                    break
+        # end of the session: close our sending side, collect whatever the helper still has for us
+        rest = []
+        if not fc.pfile.timed_out:
+            try:
+                fc.pfile.flush()
+                s2.shutdown(socket.SHUT_WR)
+                while True:
+                    ln = fc.pfile.f.readline()
+                    if not ln:
+                        break
+                    rest.append(bytes(ln))
+            except (OSError, ValueError) as e:
+                trace.append("draining the channel: %r" % (e,))
+        try:
+            proc.wait(timeout=10)
+        except subprocess.TimeoutExpired:
+            proc.kill()
+            proc.wait()
+        trace.append("helper exit status %r, left on the channel at the end: %r" % (proc.returncode, rest))
+        # ---- oracle
+        lines = [ln for (_, _, got, _, _, _, _) in flows for ln in got if ln] + rest
+        stray = [ln for ln in lines if not ln.startswith(PF_OK) or not ln.endswith(b"\n")]
+        wrong, lost, misdirected = [], [], False
+        for (n, it, got, sent, other, closed, raised) in flows:
+            fam = it[1]
+            who = "step %d: the flow from %s port %d dialled %s" % (n + 1, it[2], it[3], pf_flow_text(it))
+            dropped_ok = it[4] is None or (it[5] == proxy_port and it[4] == lo[fam])
+            if raised:
+                wrong.append("%s: the client raised %s" % (who, raised))
+                continue
+            # the reply this flow read must answer ITS query
+            if len(got) != 1:
+                wrong.append("%s read %d lines for one query" % (who, len(got)))
+            elif it[4] is None:
+                if not got[0].startswith(PF_OK[1]) and got[0] not in stray:
+                    wrong.append("%s was answered %r" % (who, got[0]))
+            elif got[0] not in stray:
+                ok = False
+                if got[0].startswith(PF_OK[0]) and got[0].endswith(b"\n"):
+                    f2 = got[0][len(PF_OK[0]):-1].split(b",")
+                    ok = (len(f2) == 2 and pton(fams[fam], f2[0].decode("latin-1")) == socket.inet_pton(fams[fam], it[4])
+                          and f2[1] == b"%d" % it[5])
+                if not ok:
+                    wrong.append("%s was answered %r (the reply of another query)" % (who, got[0]))
+            # what the server is asked to reach
+            if dropped_ok:
+                if sent or other:
+                    wrong.append("%s but the server was asked to reach %s" % (who, ", ".join(sent) or other))
+                    misdirected = True
+                continue
+            good = False
+            if len(sent) == 1 and not other:
+                f3 = sent[0].split(",")
+                good = (len(f3) == 3 and f3[0] == "%d" % fam and pton(fams[fam], f3[1]) == socket.inet_pton(fams[fam], it[4])
+                        and f3[2] == "%d" % it[5])
+            if not good:
+                if not sent:
+                    lost.append("%s was %s, nothing was sent to the server"
+                                % (who, "dropped (\"that's my address\")" if closed else "not forwarded"))
+                else:
+                    wrong.append("%s but the server was asked to reach %s" % (who, ", ".join(sent)))
+                    misdirected = True
+        nq = len(flows)
+        if stray:
+            failures.append(("stray-line", "the pf helper wrote a line that is neither STARTED nor a QUERY_PF_NAT reply on its "
+                             "standard output, which is the reply channel of the QUERY_PF_NAT dialogue: %r" % stray[0]))
+        if len(lines) != nq and not any(k == "no-reply" for k, _ in failures):
+            failures.append(("reply-count", "%d queries were sent but %d lines came back on the reply channel (exactly one "
+                             "reply per query is required)" % (nq, len(lines))))
+        if wrong:
+            failures.append(("wrong-destination" if misdirected else "wrong-reply",
+                             "; ".join(wrong[:3]) + ("; and %d more" % (len(wrong) - 3) if len(wrong) > 3 else "")))
+        if lost:
+            failures.append(("dropped", "; ".join(lost[:2]) + ("; and %d more" % (len(lost) - 2) if len(lost) > 2 else "")))
+    finally:
+        client.islocal = old_islocal
+        if proc is not None and proc.poll() is None:
+            proc.kill()
+            proc.wait()
+        if s2 is not None:
+            s2.close()
+        shutil.rmtree(scratch, ignore_errors=True)
+    return {"failures": failures, "trace": trace}
+
+
+def pf_session_what(failures):
+    order = {"stray-line": 0, "no-reply": 1, "wrong-destination": 2, "wrong-reply": 3, "dropped": 4, "reply-count": 5}
+    fs = sorted(failures, key=lambda f: order.get(f[0], 9))
+    return "pf session (real firewall.main helper and real client on one control channel): " + "; ".join(t for _, t in fs)
+
+
+def gen_pf_history(rng, A4, A6, PORTS, proxy_port):
+    names = ["db", "web-1", "a.b.example", "x_y"]
+    ips = ["10.1.1.7", "10.1.1.8", "192.168.0.1", "0.0.0.0"]
+    hist = []
+    used = set()
+    for _ in range(rng.randrange(6, 15)):
+        k = rng.random()
+        if k < 0.42:
+            hist.append(["H", rng.choice(names[:3] if rng.random() < 0.8 else names), rng.choice(ips)])
+            continue
+        fam = rng.choice([AF_INET, AF_INET6])
+        sfam = socket.AF_INET if fam == AF_INET else socket.AF_INET6
+        while True:
+            src = (socket.inet_ntop(sfam, rng.choice(A4[34:] if fam == AF_INET else A6[130:])), rng.randrange(1024, 65536))
+            if src not in used and src[0] not in ("127.0.0.1", "::1"):
+                used.add(src)
+                break
+        kind = rng.random()
+        if kind < 0.08:
+            dst = [None, 0]
+        elif kind < 0.14:
+            dst = ["127.0.0.1" if fam == AF_INET else "::1", proxy_port]
+        else:
+            a = rng.choice(A4 if fam == AF_INET else A6)
+            dst = [socket.inet_ntop(sfam, a), rng.choice(PORTS)]
+            if dst[0] in ("127.0.0.1", "::1") and dst[1] == proxy_port:
+                dst[1] = proxy_port + 1
+        hist.append(["F", fam, src[0], src[1], dst[0], dst[1]])
+    if rng.random() < 0.25:
+        hist.append(["J", hx(rng.choice([b"\n", b"   \n", b"NOSUCH command\n", b"QUERY_PF_NAT\n", b"HOSTS a,1.2.3.4\n", b"host a,1.2.3.4\n"]))])
+    return hist
+
+
+def shrink_pf_history(world, hist, proxy_port, kinds):
+    """one greedy pass: drop every item whose removal keeps a failure of the same kinds"""
+    cur = list(hist)
+    i = len(cur) - 1
+    budget = 40
+    while i >= 0 and budget > 0:
+        cand = cur[:i] + cur[i + 1:]
+        budget -= 1
+        try:
+            res = run_pf_session(world, cand, proxy_port)
+        except Exception:
+            res = {"failures": []}
+        if {k for k, _ in res["failures"]} >= kinds:
+            cur = cand
+        i -= 1
+    return cur
+
+
+def run_pf_sessions(ctx, world, A4, A6, PORTS):
+    rng = ctx.rng
+    proxy_port = 12300
+    scripted = [
+        # flow; a host is reported, and reported again with another address; three more flows (the last one IPv6, port 65535)
+        [["F", AF_INET, "10.9.9.9", 40001, "10.1.1.1", 80], ["H", "db", "10.1.1.7"], ["H", "db", "10.1.1.8"],
+         ["F", AF_INET, "10.9.9.9", 40002, "10.2.2.2", 443], ["F", AF_INET, "10.9.9.9", 40003, "10.3.3.3", 8080],
+         ["F", AF_INET6, "fd00::9", 40004, "2001:db8:1:2:3:4:5:6", 65535]],
+        # the same name with the same address again, another name, no state, the proxy's own socket, an unknown line at the end
+        [["H", "db", "10.1.1.7"], ["F", AF_INET6, "fd00::9", 1024, "::ffff:1.2.3.4", 0x3412], ["H", "db", "10.1.1.7"],
+         ["H", "web-1", "10.1.1.7"], ["F", AF_INET, "10.9.9.9", 40002, None, 0], ["F", AF_INET, "10.9.9.8", 40002, "127.0.0.1", proxy_port],
+         ["F", AF_INET, "10.9.9.8", 40003, "127.0.0.1", proxy_port + 1], ["H", "web-1", "0.0.0.0"],
+         ["F", AF_INET6, "fd00::a", 65535, "::1", 0x1234], ["J", hx(b"NOSUCH command\n")]],
+    ]
+    n_random = 24 if ctx.quick() else 300
+    hists = scripted + [gen_pf_history(rng, A4, A6, PORTS, proxy_port) for _ in range(n_random)]
+    failing = {}                    # kinds of failure -> first history that shows exactly these
+    for si, hist in enumerate(hists):
+        res = run_pf_session(world, hist, proxy_port)
+        nf = sum(1 for it in hist if it[0] == "F")
+        hs = [it for it in hist if it[0] == "H"]
+        moved = sum(1 for i, it in enumerate(hs) if any(p[1] == it[1] and p[2] != it[2] for p in hs[:i]))
+        ctx.count("pf_session")
+        ctx.count("pf_session_flows", nf)
+        ctx.count("pf_session_host_lines", len(hs))
+        ctx.count("pf_session_host_reported_again_with_another_address", moved)
+        ctx.count("pf_session_ended_by_blank_or_unknown_line", 1 if hist and hist[-1][0] == "J" else 0)
+        for i, it in enumerate(hist):
+            ctx.case(("pf-session", si, i, tuple(it)), nontrivial=True,
+                     sample={"kind": "pf session", "history": hist, "trace": res["trace"]} if (si == 0 and i == 0) else None)
+        if not res["failures"]:
+            continue
+        kinds = {k for k, _ in res["failures"]}
+        ctx.count("pf_session_failing")
+        failing.setdefault(frozenset(kinds), (hist, res))
+    # one report per kind of failure; a history that shows more (a flow sent to ANOTHER flow's destination) stands for the
+    # ones that show a part of it (only the stray line)
+    for kinds, (hist, res) in sorted(failing.items(), key=lambda kv: sorted(kv[0])):
+        if any(kinds < other for other in failing):
+            continue
+        small = shrink_pf_history(world, hist, proxy_port, kinds)
+        res2 = run_pf_session(world, small, proxy_port)
+        if not res2["failures"]:
+            small, res2 = hist, res
+        ctx.violation(pf_session_what(res2["failures"]),
+                      {"oracle": "pf-session", "proxy_port": proxy_port, "history": small, "trace": res2["trace"]})
 
 
 # --------------------------------------------------------------------------
@@ -1213,6 +1585,8 @@ def correspondence(ctx):
         lines.append("PFREPLY %s %s %d" % (hx(rl), hx("127.0.0.1"), 12300)); impls.append(r); descs.append(("pfreply", rl))
         ctx.count("pf_reply_" + r.split(" ")[0])
     batch(ctx, "pf reply decode", lines, impls, descs)
+    # whole sessions: one real helper process, one control channel, HOST lines / queries / junk interleaved
+    run_pf_sessions(ctx, world, A4, A6, PORTS)
 
     # ---- every run: the running kernel on loopback sockets (no privilege, no namespace needed; skipped with a note when the
     # sandbox refuses): (i) the fake recvmsg of the cases above stores control messages exactly like the kernel, for every
@@ -1403,6 +1777,12 @@ def replay(ctx, rp):
         print("real loopback datagrams: %d checked ->" % n, bad, notes)
         return bool(bad)
     world = World()
+    if r.get("oracle") == "pf-session":
+        res = run_pf_session(world, r["history"], r.get("proxy_port", 12300))
+        for t in res["trace"]:
+            print("  ", t)
+        print("property failures:", pf_session_what(res["failures"]) if res["failures"] else "none")
+        return bool(res["failures"])
     if "connect_payload" in r:
         payload = r["connect_payload"].encode("ascii")
         text, port = r["dialled"]
